@@ -361,3 +361,153 @@ func parseRun(args []string) error {
 	}
 	return nil
 }
+
+func init() {
+	commands["parse-bytes"] = parseBytes
+	commands["deep-run"] = deepRun
+}
+
+func asciiOnly(s string) string {
+	var sb strings.Builder
+	for i := 0; i < len(s); i++ {
+		if s[i] < 0x80 {
+			sb.WriteByte(s[i])
+		} else {
+			sb.WriteString("~u")
+		}
+	}
+	return sb.String()
+}
+
+// lexErrCheck: a lexing failure must come with a nil AST and a located lexer error.
+func lexErrCheck(b *built, in string) string {
+	ast, err := b.p.ParseString("fn", in)
+	if err == nil {
+		return "BADERR:lexer failed but ParseString succeeded"
+	}
+	if ast != nil {
+		return "BADERR:lexing failure with non-nil AST"
+	}
+	pe, ok := err.(participle.Error)
+	if !ok {
+		return "BADERR:notError"
+	}
+	pos := pe.Position()
+	if pos.Filename != "fn" || pos.Offset < 0 || pos.Offset > len(in) {
+		return "BADERR:position " + pos.String()
+	}
+	line := 1 + strings.Count(in[:pos.Offset], "\n")
+	col := 1 + len([]rune(in[strings.LastIndex(in[:pos.Offset], "\n")+1:pos.Offset]))
+	if pos.Line != line || pos.Column != col {
+		return fmt.Sprintf("BADERR:linecol %v want %d:%d", pos, line, col)
+	}
+	if !strings.HasPrefix(err.Error(), fmt.Sprintf("fn:%d:%d: ", pos.Line, pos.Column)) {
+		return "BADERR:text " + err.Error()
+	}
+	return ""
+}
+
+// parse-bytes <grammars.json> <out cases.json> <maxlen> <byte,byte,...>: every byte string up to maxlen over the
+// alphabet is lexed with the real lexer; strings that lex are parsed at every lookahead ("id\tk\tindex\toutcome") and
+// written, with their real token streams, to the case file the specification evaluates; lexing failures are checked
+// here ("id\t-\tL<n>\toutcome").
+func parseBytes(args []string) error {
+	f, err := os.ReadFile(args[0])
+	if err != nil {
+		return err
+	}
+	var raw []map[string]any
+	var gs []gGrammar
+	if err := json.Unmarshal(f, &raw); err != nil {
+		return err
+	}
+	if err := json.Unmarshal(f, &gs); err != nil {
+		return err
+	}
+	maxlen, _ := strconv.Atoi(args[2])
+	var alpha []byte
+	for _, x := range strings.Split(args[3], ",") {
+		n, _ := strconv.Atoi(x)
+		alpha = append(alpha, byte(n))
+	}
+	var inputs []string
+	var rec func(p []byte)
+	rec = func(p []byte) {
+		inputs = append(inputs, string(p))
+		if len(p) == maxlen {
+			return
+		}
+		for _, a := range alpha {
+			rec(append(append([]byte{}, p...), a))
+		}
+	}
+	rec(nil)
+	var extra []string
+	if len(args) > 4 {
+		eb, err := os.ReadFile(args[4])
+		if err != nil {
+			return err
+		}
+		if err := json.Unmarshal(eb, &extra); err != nil {
+			return err
+		}
+		inputs = append(inputs, extra...)
+	}
+	w := bufio.NewWriterSize(os.Stdout, 1<<20)
+	defer w.Flush()
+	for gi := range gs {
+		g := &gs[gi]
+		var builts []*built
+		for _, k := range g.Ks {
+			b, err := build(g, k)
+			if err != nil {
+				fmt.Fprintf(w, "%s\t%d\t-\tbuilderr %v\n", g.ID, k, strings.ReplaceAll(err.Error(), "\n", " "))
+				b = nil
+			}
+			builts = append(builts, b)
+		}
+		if builts[0] == nil {
+			continue
+		}
+		names := lexer.SymbolsByRune(builts[0].p.Lexer())
+		elided := map[string]bool{"WS": true, "Comment": true}
+		outInputs := []any{}
+		nlex := 0
+		for _, in := range inputs {
+			toks, err := builts[0].p.Lex("fn", strings.NewReader(in))
+			if err != nil {
+				nlex++
+				res := runGuarded(func() (s string) {
+					defer func() {
+						if r := recover(); r != nil {
+							s = fmt.Sprintf("panic %v", r)
+						}
+					}()
+					return "lexerr " + lexErrCheck(builts[0], in)
+				})
+				fmt.Fprintf(w, "%s\t-\tL%d\t%s\t%q\n", g.ID, nlex, res, in)
+				continue
+			}
+			var jt []map[string]any
+			for _, t := range toks {
+				nm := names[t.Type]
+				jt = append(jt, map[string]any{"t": nm, "v": asciiOnly(t.Value), "fv": strings.ToLower(asciiOnly(t.Value)), "el": elided[nm]})
+			}
+			idx := len(outInputs)
+			outInputs = append(outInputs, map[string]any{"s": asciiOnly(in), "q": strconv.Quote(in), "toks": jt})
+			for ki, k := range g.Ks {
+				if builts[ki] == nil {
+					continue
+				}
+				b := builts[ki]
+				fmt.Fprintf(w, "%s\t%d\t%d\t%s\n", g.ID, k, idx, runGuarded(func() string { return run(b, in) }))
+			}
+		}
+		raw[gi]["inputs"] = outInputs
+	}
+	ob, err := json.Marshal(raw)
+	if err != nil {
+		return err
+	}
+	return os.WriteFile(args[1], ob, 0o644)
+}
